@@ -1,12 +1,13 @@
 """C01 -- mixing, splitting, separating conserve every chemical (structural clauses)."""
 from __future__ import annotations
 import ast
+import re
 from ..frontend import AnalysisError, src, walk_no_nested
 from ..symx import run_paths
 from ..lin import Form, Lin
 from ..effects import Effects
 from ..generic import stale_alias, guarded_refill_needs_empty
-from ..pathcond import implied
+from ..pathcond import implied, rimplied
 
 MANIFEST = {
     'technique': 'symbolic linear forms (split closure, scaling), per-path accumulator accounting in the indexer mix_from loops, alias-guard and stale-alias dataflow over the CFG, index-identity rule for copy-with-removal',
@@ -286,8 +287,7 @@ def per_inlet_paths(ctx, d2, f, cons, loop, x, same, remap, self_chem, label='')
         if p.raised:
             continue
         npaths += 1
-        same_pkg = implied(p.conds, lambda e: isinstance(e, ast.Compare) and isinstance(e.ops[0], ast.Is)
-                           and {'chemicals', 'ichemicals'} == {src(e.left), src(e.comparators[0])})
+        same_pkg = rimplied(p, lambda t: t in ('(self._chemicals is %s._chemicals)' % x, '(%s._chemicals is self._chemicals)' % x))
         is_mat = implied(p.conds, lambda e: isinstance(e, ast.Call) and 'MaterialIndexer' in src(e))
         S, D = [], []
         for e in p.events:
@@ -461,26 +461,45 @@ def alias_guard(ctx, d3):
         has_others = implied(p.conds, lambda e: src(e) == f.params[1])
         if has_others is False:
             continue   # no operands: clearing is the whole job
-        rep0 = implied(p.conds, lambda e: src(e) == 'repeated == 0')
-        if rep0 is not True:
+        # an operand dict was found identical to the receiver dict on this path?
+        hit = rimplied(p, lambda t: t.startswith('(') and t.endswith(' is self.dct)') or t.startswith('(self.dct is '))
+        if hit is not False:
             d3.fail('SparseVector.mix_from', 'clear-unguarded', 'receiver dict is cleared on a path where it may be one of the inlets', f, clears[0].stmt)
             bad = True
-    # the counter counts identity hits; non-identical dicts are kept as sources
-    loop = [n_ for n_ in ast.walk(f.node) if isinstance(n_, ast.For) and isinstance(n_.iter, ast.Name) and n_.iter.id == 'other_dcts']
+    # structure of the accounting: identity hits are counted, other dicts are kept as sources,
+    # one hit -> a copy of the receiver is a source, several hits -> the receiver scaled by the count
     okc = False
-    if loop:
-        lp = loop[0]
+    why = 'identity-counting loop not found'
+    for lp in [n_ for n_ in ast.walk(f.node) if isinstance(n_, ast.For) and isinstance(n_.target, ast.Name)]:
         v = lp.target.id
-        if len(lp.body) == 1 and isinstance(lp.body[0], ast.If):
-            t = lp.body[0]
-            okc = src(t.test) in ('%s is dct' % v, 'dct is %s' % v) and src(t.body[0]) == 'repeated += 1' \
-                and t.orelse and src(t.orelse[0]) == 'dcts.append(%s)' % v
-    srcs = ' '.join(ast.unparse(f.node).split())
-    okc = okc and 'dcts.append(dct.copy())' in srcs and 'j * repeated' in srcs
+        if not (len(lp.body) == 1 and isinstance(lp.body[0], ast.If)):
+            continue
+        t = lp.body[0]
+        if not (isinstance(t.test, ast.Compare) and isinstance(t.test.ops[0], ast.Is) and v in (src(t.test.left), src(t.test.comparators[0]))):
+            continue
+        inc = t.body[0] if t.body else None
+        keep = t.orelse[0] if t.orelse else None
+        if not (isinstance(inc, ast.AugAssign) and isinstance(inc.op, ast.Add) and isinstance(inc.target, ast.Name) and src(inc.value) == '1'):
+            why = 'identity hits are not counted'
+            continue
+        cnt = inc.target.id
+        if not (isinstance(keep, ast.Expr) and isinstance(keep.value, ast.Call) and isinstance(keep.value.func, ast.Attribute)
+                and keep.value.func.attr == 'append' and [src(a) for a in keep.value.args] == [v]):
+            why = 'non-identical inlet dicts are not kept as sources'
+            continue
+        srcs_name = src(keep.value.func.value)
+        me = src(t.test.comparators[0]) if src(t.test.left) == v else src(t.test.left)
+        txt = ' '.join(ast.unparse(f.node).split())
+        one = '%s.append(%s.copy())' % (srcs_name, me) in txt
+        many = re.search(r'%s\.append\(\{\w+: \w+ \* %s for \w+, \w+ in %s\.items\(\)\}\)' % (re.escape(srcs_name), re.escape(cnt), re.escape(me)), txt) is not None
+        zero = re.search(r'if %s == 0: %s\.clear\(\)' % (re.escape(cnt), re.escape(me)), txt) is not None
+        okc = one and many and zero
+        why = 'zero/one/many-hit handling incomplete (clear=%s, copy=%s, scaled=%s)' % (zero, one, many)
+        break
     if not bad and okc and n:
         d3.ok('SparseVector.mix_from', 'dict cleared only when it is none of the inlets; otherwise its own content is kept as a source (xrepeated)', f)
     elif not bad:
-        d3.fail('SparseVector.mix_from', 'self-inlet-accounting', 'the receiver-is-an-inlet accounting (identity count, copy, x repeated) is not in place', f, f.node)
+        d3.fail('SparseVector.mix_from', 'self-inlet-accounting', 'the receiver-is-an-inlet accounting is not in place: ' + why, f, f.node)
     for cname, mname in (('SparseVector', 'copy_like'),):
         g = prog.method(cname, mname, rel=SP)
         ps, _ = run_paths(g.node)
@@ -574,22 +593,34 @@ def copy_flow_rule(ctx, d5):
         if rm is not True:
             continue
         n += 1
+        oth = g.params[1]
+
         def is_src(e):
-            return isinstance(e.node, ast.Subscript) and src(e.node.value).startswith('other')
+            return isinstance(e.node, ast.Subscript) and e.target.startswith('%s.imol.data[' % oth)
 
         def is_dst(e):
-            return isinstance(e.node, ast.Subscript) and src(e.node.value) == 'data'
+            return isinstance(e.node, ast.Subscript) and e.target.startswith('self.imol.data[')
+
+        def reads_other(node):
+            for x in ast.walk(node):
+                if isinstance(x, (ast.Name, ast.Attribute, ast.Subscript)):
+                    try:
+                        if p.lin._recv_text(x).startswith('%s.imol.data' % oth):
+                            return True
+                    except Exception:
+                        pass
+            return False
         stores = [e for e in p.events if e.kind == 'store']
         zero_all = [e for e in stores if is_src(e) and e.value.is_zero() and src(e.node.slice) == ':']
         zeros = [e for e in stores if is_src(e) and e.value.is_zero() and src(e.node.slice) != ':']
-        copies = [e for e in stores if is_dst(e) and not e.value.is_zero()
-                  and any(isinstance(x, ast.Name) and x.id.startswith('other') for x in ast.walk(e.stmt.value))]
+        copies = [e for e in stores if is_dst(e) and not e.value.is_zero() and reads_other(e.stmt.value)]
         if zero_all:
             # move everything except an excluded block: save it, zero all, restore it at the same index
             saves = [e for e in p.events if e.kind == 'assign' and isinstance(e.stmt.value, ast.Subscript)
-                     and src(e.stmt.value.value).startswith('other') and p.events.index(e) < p.events.index(zero_all[0])]
+                     and reads_other(e.stmt.value.value) and p.events.index(e) < p.events.index(zero_all[0])]
             restores = [e for e in stores if is_src(e) and not e.value.is_zero() and p.events.index(e) > p.events.index(zero_all[0])]
-            keeps = [e for e in stores if is_dst(e) and isinstance(e.stmt.value, ast.Subscript) and 'original' in src(e.stmt.value.value)]
+            keeps = [e for e in stores if is_dst(e) and isinstance(e.stmt.value, ast.Subscript)
+                     and p.lin._recv_text(e.stmt.value.value) == 'self.imol.data.copy()']
             okk = len(saves) == 1 and len(restores) == 1 and keeps \
                 and src(saves[0].stmt.value.slice) == src(restores[0].node.slice) \
                 and src(restores[0].stmt.value) == saves[0].target \
@@ -604,7 +635,7 @@ def copy_flow_rule(ctx, d5):
             bad = True
             continue
         c, z = copies[-1], zeros[-1]
-        ci = [src(s_.slice) for s_ in ast.walk(c.stmt.value) if isinstance(s_, ast.Subscript) and src(s_.value).startswith('other')]
+        ci = [src(s_.slice) for s_ in ast.walk(c.stmt.value) if isinstance(s_, ast.Subscript) and reads_other(s_.value)]
         zi = src(z.node.slice)
         if zi not in ci:
             d5.fail('MultiStream.copy_flow', 'index-mismatch', 'entries zeroed [%s] differ from the entries copied %s' % (zi, ci), g, z.stmt)
@@ -663,22 +694,34 @@ def overlap_key_rule(ctx, d7):
     must therefore be an order-preserving encoding of exactly that sequence."""
     prog = ctx.prog
     f = prog.func(IX, 'index_overlap')
+    defs = {}
+    for n in walk_no_nested(f.node):
+        if isinstance(n, ast.Assign) and len(n.targets) == 1 and isinstance(n.targets[0], ast.Name):
+            defs.setdefault(n.targets[0].id, n.value)
+    caches = {k for k, v in defs.items() if src(v).endswith('._index_cache')}
     keys = set()
+    stored = []
     for n in walk_no_nested(f.node):
-        if isinstance(n, ast.Subscript) and src(n.value) == 'cache':
+        if isinstance(n, ast.Subscript) and src(n.value) in caches:
             keys.add(src(n.slice))
-        if isinstance(n, ast.Compare) and isinstance(n.ops[0], ast.In) and src(n.comparators[0]) == 'cache':
+            if isinstance(n.ctx, ast.Store) and isinstance(n._parent, ast.Assign) and isinstance(n._parent.value, ast.Tuple):
+                stored.append(src(n._parent.value.elts[0]))
+        if isinstance(n, ast.Compare) and isinstance(n.ops[0], ast.In) and src(n.comparators[0]) in caches:
             keys.add(src(n.left))
-    # the sequence the value is computed from:  CAS = SEQ[i] inside the loop filling left_index
+    # the sequence the cached value is computed from: inside the loop that fills the stored list, X = SEQ[<loop var>]
     seqs = set()
-    for n in walk_no_nested(f.node):
-        if isinstance(n, ast.Assign) and isinstance(n.value, ast.Subscript) and src(n.targets[0]) == 'CAS':
-            seqs.add(src(n.value.value))
+    for lp in [n for n in walk_no_nested(f.node) if isinstance(n, ast.For) and isinstance(n.target, ast.Name)]:
+        fills = any(isinstance(x, ast.Subscript) and isinstance(x.ctx, ast.Store) and src(x.value) in stored for x in ast.walk(lp))
+        if not fills:
+            continue
+        for x in ast.walk(lp):
+            if isinstance(x, ast.Assign) and isinstance(x.value, ast.Subscript) and src(x.value.slice) == lp.target.id \
+                    and isinstance(x.value.value, ast.Name):
+                seqs.add(x.value.value.id)
     if len(keys) != 1 or len(seqs) != 1:
         d7.fail('index_overlap', 'memo-key-shape', 'memo uses keys %s for a value computed from %s' % (sorted(keys), sorted(seqs)), f, f.node)
         return
     key, seq = keys.pop(), seqs.pop()
-    defs = {src(n.targets[0]): n.value for n in walk_no_nested(f.node) if isinstance(n, ast.Assign) and len(n.targets) == 1}
 
     def order_preserving(name, depth=0):
         if name == seq:
@@ -694,12 +737,13 @@ def overlap_key_rule(ctx, d7):
         if isinstance(v, ast.Name):
             return order_preserving(v.id, depth + 1)
         return False
-    # seq itself must be the ordered gather over right_index
+    # seq itself must be the ordered gather over the index argument
     sv = defs.get(seq)
-    ordered = sv is not None and 'for i in right_index' in src(sv)
+    idx_param = f.params[2]
+    ordered = sv is not None and ('in %s' % idx_param) in src(sv)
     if order_preserving(key) and ordered:
-        d7.ok('index_overlap', 'memo key %r is an order-preserving encoding of the CAS sequence %r the cached left index is computed from' % (key, seq), f)
+        d7.ok('index_overlap', 'memo key is an order-preserving encoding of the CAS sequence the cached left index is computed from', f)
     else:
-        d7.fail('index_overlap', 'memo-key-lossy', 'the cached left index depends on the order of %r but the memo key %r (= %s) does not determine that order: '
+        d7.fail('index_overlap', 'memo-key-lossy', 'the cached left index depends on the order of the CAS sequence but the memo key (= %s) does not determine that order: '
                 'a later call with the same chemicals in another order receives positions for the wrong chemicals'
-                % (seq, key, src(defs[key]) if key in defs else key), f, f.node)
+                % (src(defs[key]) if key in defs else key), f, f.node)
